@@ -1,13 +1,55 @@
 import Thanos.Common.Parse
+import Thanos.Model.BlockSet
 /-
   Line-protocol driver of the `stores` family (C07 C08 C09 C10 C15).
   One request per line, one answer per line; every line is self-contained.
+
+  C15
+    bs.getfor <blocks> <mint> <maxt> <maxres>
+        blocks = `res:mint:maxt:keep` joined by `,` (`-` = none), in the order they are added; the id of a
+        block is its position.  keep = 1/0 = outcome of matchRelabelLabels on the block.
+      -> `ok f=<failed adds> <res:mint:maxt joined by ;> <sorted ids joined by ,>` | `panic`
 -/
 open Thanos Thanos.Parse
 
 namespace Thanos.Driver.Stores
 
+/-! ### C15 -/
+
+def parseBlock (id : Nat) (s : String) : Option BlockSet.Block :=
+  match (splitChar ':' s).mapM parseInt? with
+  | some [r, a, b, k] => some { id := id, res := r, mint := a, maxt := b, keep := k != 0 }
+  | _ => none
+
+def parseBlocks (s : String) : Option (List BlockSet.Block) :=
+  let rec go : Nat → List String → Option (List BlockSet.Block)
+    | _, [] => some []
+    | i, x :: xs => do
+      let b ← parseBlock i x
+      let r ← go (i + 1) xs
+      pure (b :: r)
+  go 0 (listOf ',' s)
+
+def insertNat (x : Nat) : List Nat → List Nat
+  | [] => [x]
+  | y :: ys => if x ≤ y then x :: y :: ys else y :: insertNat x ys
+
+def sortNats (xs : List Nat) : List Nat := xs.foldr insertNat []
+
+def showGetFor (failed : Nat) : Option (List BlockSet.Block) → String
+  | none => "panic"
+  | some r =>
+    let seq := joinWith ";" (r.map fun b => s!"{b.res}:{b.mint}:{b.maxt}")
+    let ids := showNats "," (sortNats (r.map (·.id)))
+    s!"ok f={failed} {seq} {ids}"
+
 def handle : List String → String
+  | ["bs.getfor", blocks, mint, maxt, maxres] =>
+    match parseBlocks blocks, parseInt? mint, parseInt? maxt, parseInt? maxres with
+    | some bs, some mint, some maxt, some maxres =>
+      let (s, failed) := BlockSet.addAll BlockSet.empty bs
+      showGetFor failed (BlockSet.getFor false false s mint maxt maxres)
+    | _, _, _, _ => "bad-op"
   | _ => "bad-op"
 
 end Thanos.Driver.Stores
